@@ -1,13 +1,16 @@
 """C14 — see DESIGN.md section 6."""
 from kv_engine import *
+import conc_engine
 
 MODULE = "Feox.Props.C14"
-THEOREMS = ['Feox.C14.range_spec', 'Feox.C14.range_props', 'Feox.C14.range_empty', 'Feox.C14.range_complete', 'Feox.C14.reachable_sorted', 'Feox.Kv.bytesLt_trans', 'Feox.Kv.bytesLt_total']
+THEOREMS = ['Feox.C14.range_spec', 'Feox.C14.range_props', 'Feox.C14.range_empty', 'Feox.C14.range_complete', 'Feox.C14.reachable_sorted', 'Feox.Kv.bytesLt_trans', 'Feox.Kv.bytesLt_total',
+            'Feox.C14.concurrent_scan', 'Feox.C14.absent_never_appears', 'Feox.C14.stable_key_exactly_once', 'Feox.Conc.Range.inv_step', 'Feox.Conc.Range.nextKey_le']
 
 
 def run(ctx):
     return kv_check(ctx, MODULE, THEOREMS, lambda op: op.startswith("kv range") or op.startswith("kv dump"), "range query", [
         "the reference map is Lean Feox.Kv.Spec; its agreement with the real store is differential testing over the generated sequences",
         "json-patch/serde_json results, the wall clock and the key->clock-shard hash are inputs of the model (recorded per call by the harness)",
-        "disk reads are assumed faithful here (C05/C10 cover the bytes); concurrency is outside this engine (Conc engine)",
-    ])
+        "disk reads are assumed faithful here (C05/C10 cover the bytes)",
+        "concurrent clauses: the scan model Feox.Conc.Range takes the ordered index at each iteration as an arbitrary input and assumes the skip list's lower_bound / Entry::next return the smallest live key at or above the position at that instant (crossbeam-skiplist), and that one iteration (visit + move) is atomic with respect to the writers the scheduler runs between iterations; keys are abstract (their order only)",
+    ], pre_finish=conc_engine.scan_stage)
